@@ -41,6 +41,140 @@ def eval_list_get(variants):
     return None
 
 
+def _helper_table(fns):
+    """name -> one variant (the last; const/non-const overloads share their body shape) for CallKern"""
+    return {n: v[-1] for n, v in fns.items() if v}
+
+
+def _rec(data):
+    return {"data": list(data) if data else None, "size": len(data), "__types__": {"size": "size_t"}}
+
+
+def _run_helper_concrete(fns, f, args):
+    """evaluate helper variant f (C semantics, heap tracked) on concrete arguments; -> (return value | '<none>', error text | None)"""
+    from .. import ckern
+    k = ckern.CallKern(_helper_table(fns), max_steps=20000)
+    k.record_defaults = {"__redu_list": lambda: _rec([])}
+    for (pn, pt), v in zip(f["params"], args):
+        k.env[pn] = v
+        k.types[pn] = (pt or "").replace("const ", "").replace("&", "").strip()
+    initial = [(a, a["data"]) for a in args if isinstance(a, dict) and isinstance(a.get("data"), list)]
+    try:
+        k.block(f["body"])
+        rv = "<none>"
+    except ckern._Return as r_:
+        rv = r_.v
+    except ckern.KernUnsupported as e:
+        return None, str(e)
+    # leaks: a buffer the call replaced must have been released; a buffer the call allocated must be owned by an argument
+    # or by the returned record
+    owned = {id(a["data"]) for a in args if isinstance(a, dict) and isinstance(a.get("data"), list)}
+    if isinstance(rv, dict) and isinstance(rv.get("data"), list):
+        owned.add(id(rv["data"]))
+    for a, buf in initial:
+        if a["data"] is not buf and id(buf) not in k.heap_freed and id(buf) not in owned:
+            return rv, "the list's previous buffer is neither released nor owned any more (leak on every call)"
+        if id(a["data"]) in k.heap_freed:
+            return rv, "the list is left pointing at a released buffer"
+    for buf in k.heap_all:
+        if id(buf) not in k.heap_freed and id(buf) not in owned:
+            return rv, f"a buffer of {len(buf)} element(s) allocated by the call is neither released nor handed to a list (leak on every call)"
+    return rv, None
+
+
+def _live(rec):
+    d = rec["data"]
+    return list(d[: rec["size"]]) if isinstance(d, list) else []
+
+
+def eval_list_helpers(fns):
+    """Python's list semantics and memory safety of the helper templates decided by evaluation (C semantics, tracked heap:
+    every index is bounds-checked against its buffer, freed buffers may not be touched) on all lists of up to four elements
+    over two values.  -> (number of evaluations, [(key, message)])"""
+    import itertools
+    bad, n = [], 0
+
+    def generic(name):
+        return [f for f in fns.get(name, []) if any("__redu_list" in (t or "") or t in ("T", "const T &", "Func") for _n, t in f.get("params", []))]
+
+    lists = [list(c) for size in range(0, 5) for c in itertools.product((1, 2), repeat=size)]
+    for f in generic("__redu_list_remove"):
+        for xs in lists:
+            for v in (1, 2, 3):
+                rec = _rec(xs)
+                _rv, err = _run_helper_concrete(fns, f, [rec, v])
+                n += 1
+                want = list(xs)
+                if v in want:
+                    want.remove(v)
+                if err is not None:
+                    bad.append(("remove/memory-safe", f"__redu_list_remove({xs}, {v}): {err}"))
+                elif _live(rec) != want or rec["size"] != len(want):
+                    bad.append(("remove/first-equal-element-only", f"__redu_list_remove({xs}, {v}) leaves {_live(rec)} (size {rec['size']}); Python's list.remove leaves {want}"))
+                elif want and (not isinstance(rec["data"], list) or len(rec["data"]) < len(want)):
+                    bad.append(("remove/memory-safe", f"__redu_list_remove({xs}, {v}): the buffer holds {len(rec['data'] or [])} elements for size {rec['size']}"))
+    for f in generic("__redu_list_append"):
+        for xs in lists:
+            rec = _rec(xs)
+            _rv, err = _run_helper_concrete(fns, f, [rec, 7])
+            n += 1
+            if err is not None:
+                bad.append(("append/memory-safe", f"__redu_list_append({xs}, 7): {err}"))
+            elif _live(rec) != xs + [7] or rec["size"] != len(xs) + 1:
+                bad.append(("append/adds-one-at-the-end", f"__redu_list_append({xs}, 7) leaves {_live(rec)} (size {rec['size']}); Python leaves {xs + [7]}"))
+            elif len(rec["data"]) < rec["size"]:
+                bad.append(("append/memory-safe", f"__redu_list_append({xs}, 7): buffer of {len(rec['data'])} for size {rec['size']}"))
+    for f in generic("__redu_list_assign"):
+        for xs in lists[:15]:
+            for ys in lists[:15]:
+                d, s_ = _rec(xs), _rec(ys)
+                old = d["data"]
+                _rv, err = _run_helper_concrete(fns, f, [d, s_])
+                n += 1
+                if err is not None:
+                    bad.append(("assign/memory-safe", f"__redu_list_assign({xs}, {ys}): {err}"))
+                elif _live(d) != ys or _live(s_) != ys:
+                    bad.append(("assign/copies-the-source", f"__redu_list_assign({xs}, {ys}) leaves dest {_live(d)}, source {_live(s_)}"))
+                elif ys and d["data"] is s_["data"]:
+                    bad.append(("assign/deep-copy", f"__redu_list_assign({xs}, {ys}): dest shares the source's buffer"))
+        d = _rec([1, 2])
+        _rv, err = _run_helper_concrete(fns, f, [d, d])
+        n += 1
+        if err is not None or _live(d) != [1, 2]:
+            bad.append(("assign/self-assignment", f"__redu_list_assign(a, a) leaves {_live(d)} {err or ''}"))
+    for f in generic("__redu_list_get"):
+        for xs in lists:
+            data = [10 * (i_ + 1) for i_ in range(len(xs))]
+            for idx in range(-len(data), len(data)):
+                rv, err = _run_helper_concrete(fns, f, [_rec(data), idx])
+                n += 1
+                if err is not None:
+                    bad.append(("get/memory-safe", f"__redu_list_get(list of {len(data)}, {idx}): {err}"))
+                elif rv != data[idx]:
+                    bad.append(("get/negative-index-counts-from-the-end", f"__redu_list_get(list of {len(data)}, {idx}) yields {rv!r}; Python's xs[{idx}] is {data[idx]}"))
+    for f in [g for g in fns.get("__redu_list_from_range", []) if any(t == "Func" for _n, t in g.get("params", []))]:
+        for start, stop, step in itertools.product((0, 1, 7, -2, 10), (0, 5, -3, 7, 2), (1, 2, 3, -1, -2, -3, 0)):
+            seen = []
+
+            def fn_(v, _s=seen):
+                _s.append(v)
+                return v * 2 + 1
+            rv, err = _run_helper_concrete(fns, f, [start, stop, step, fn_])
+            n += 1
+            want = list(range(start, stop, step)) if step else []
+            if err is not None:
+                bad.append(("from_range/memory-safe", f"__redu_list_from_range({start}, {stop}, {step}): {err}"))
+            elif not isinstance(rv, dict) or _live(rv) != [v * 2 + 1 for v in want] or rv.get("size") != len(want):
+                bad.append(("from_range/elements=range(start,stop,step)", f"__redu_list_from_range({start}, {stop}, {step}) yields {_live(rv) if isinstance(rv, dict) else rv!r}; Python's range gives {[v * 2 + 1 for v in want]}"))
+    for f in [g for g in fns.get("__redu_len", []) if any("__redu_list" in (t or "") for _n, t in g.get("params", []))]:
+        for xs in lists[:15]:
+            rv, err = _run_helper_concrete(fns, f, [_rec(xs)])
+            n += 1
+            if err is not None or rv != len(xs):
+                bad.append(("len/list-size", f"__redu_len({xs}) yields {rv!r} {err or ''}"))
+    return n, bad
+
+
 def list_helpers(em):
     snippet = lit.table(em, "LIST_HELPER_SNIPPET")
     names = sorted(set(re.findall(r"\b(__redu_(?:make_list|list_\w+|len))\s*\(", snippet)))
@@ -134,6 +268,82 @@ class Heap:
             st.flags["@freed:" + base] = True
 
 
+class OwnSim:
+    """ownership simulation of list buffers over a straight-line IR sequence: every list variable points at a buffer;
+    a struct copy shares it, the helpers allocate/free as their templates do (assign: free the target's old buffer, then
+    copy the source; append/remove: reallocate).  Reports reads of freed buffers."""
+    FRESH = re.compile(r"\s*(__redu_make_list\b|__redu_list_from_range\b|__redu_list<)")
+
+    def __init__(self, list_vars):
+        self.ptr = {}
+        self.live = {}
+        self.n = 0
+        self.viol = []
+        for v in list_vars:
+            self.ptr[v] = self.new()
+
+    def new(self):
+        self.n += 1
+        self.live[self.n] = True
+        return self.n
+
+    def read(self, v, what):
+        b = self.ptr.get(v)
+        if b is not None and not self.live[b]:
+            self.viol.append(f"{what} reads the buffer of `{v}` after it was freed")
+
+    def reads_in(self, text, what, skip=()):
+        for nm in set(re.findall(r"[A-Za-z_]\w*", text)):
+            if nm in self.ptr and nm not in skip:
+                self.read(nm, what)
+
+    def step(self, n_):
+        cn = type(n_).__name__
+        if cn in ("VarDecl", "VarAssign"):
+            e_ = str(n_.expr).strip()
+            is_list = "__redu_list" in str(getattr(n_, "c_type", "")) or n_.name in self.ptr
+            if not is_list:
+                self.reads_in(e_, f"`{n_.name} = {e_}`")
+                return
+            if self.FRESH.match(e_):
+                self.reads_in(e_, f"`{n_.name} = {e_}`")
+                self.ptr[n_.name] = self.new()
+            elif e_ in self.ptr:
+                self.read(e_, f"`{n_.name} = {e_}`")
+                self.ptr[n_.name] = self.ptr[e_]
+            else:
+                self.reads_in(e_, f"`{n_.name} = {e_}`")
+                self.ptr[n_.name] = self.new()
+        elif cn == "ExprStmt":
+            e_ = str(n_.expr).strip()
+            m = re.match(r"__redu_list_(assign|append|remove)\(\s*([A-Za-z_]\w*)\s*,\s*(.*)\)\s*$", e_)
+            if not m:
+                self.reads_in(e_, f"`{e_}`")
+                return
+            op, tgt, arg = m.groups()
+            if op == "assign":
+                src = arg.strip()
+                if src == tgt:
+                    return                  # self-assignment returns early in the helper
+                old = self.ptr.get(tgt)
+                if old is not None:
+                    self.live[old] = False      # the helper releases the destination before it copies
+                self.reads_in(src, f"`{e_}`")
+                self.ptr[tgt] = self.new()
+            else:
+                self.read(tgt, f"`{e_}`")
+                self.reads_in(arg, f"`{e_}`", skip=(tgt,))
+                old = self.ptr.get(tgt)
+                self.ptr[tgt] = self.new()
+                if old is not None:
+                    self.live[old] = False
+
+    def run(self, nodes):
+        for n_ in nodes:
+            self.step(n_)
+        return self
+
+
 def run(cx):
     em, pm = mod(EMITTER), mod(PARSER)
     cx.consulted(em)
@@ -161,7 +371,7 @@ def run(cx):
     r.check(has_dtor and has_copy and has_assign, "__redu_list/rule-of-three", (em.rel, line), f"__redu_list owns `T *data` (new[]) but declares destructor={has_dtor}, copy-constructor={has_copy}, copy-assignment={has_assign}: `b = a` shares one buffer (use after free once either is reassigned/appended) and `x = [..]` inside loop() leaks the old buffer each pass")
 
     # ---- C09-PAIR ----------------------------------------------------------------------------
-    r = cx.rule("C09-PAIR", "in every helper a by-reference list's data pointer is only overwritten after delete[] of the old buffer, every new[] result is stored into a data field (or a local that is), no helper stores one list's data pointer into another list, assign guards against self-assignment before deleting", floor=5)
+    r = cx.rule("C09-PAIR", "in every helper a by-reference list's data pointer is only overwritten after delete[] of the old buffer, every new[] result is stored into a data field (or a local that is), no helper stores one list's data pointer into another list, (self-assignment and deep copy are decided by evaluation in C09-BOUNDS)", floor=4)
     for n, variants in fns.items():
         f = variants[-1]
         byref = {p for p, t in f["params"] if t and "&" in t and "const" not in t and "__redu_list" in t}
@@ -251,25 +461,18 @@ def run(cx):
             return cur
 
         flow(f["body"], set())
-        if n == "__redu_list_assign":
-            first = f["body"][0] if f["body"] else None
-            okg = first is not None and first["k"] == "if" and show(first["cond"]) == "(&dest == &source)" and any(s["k"] == "return" for s in first["then"])
-            r.check(okg, "__redu_list_assign/self-assignment-guard-first", (em.rel, line), "assign(x, x) must return before the buffer is deleted")
-            copies = [x for x in order if x[0] == "assign" and x[2][0] == "index" and show(x[2][1]) == "dest.data" and x[3][0] == "index" and show(x[3][1]) == "source.data"]
-            r.check(len(copies) == 1, "__redu_list_assign/deep-copy", (em.rel, line), "assign must copy the elements one by one")
     r.check(set(fns) >= {"__redu_list_append", "__redu_list_remove", "__redu_list_assign", "__redu_list_get", "__redu_list_from_range", "__redu_make_list"}, "helpers/present", (em.rel, line), f"list helpers found: {sorted(fns)}")
 
     # ---- C09-SIB -----------------------------------------------------------------------------
-    r = cx.rule("C09-SIB", "the const and non-const element getters are identical (negative index normalised in both)", floor=1)
+    n_eval, bad_eval = eval_list_helpers(fns)
+    r = cx.rule("C09-SIB", "every variant of the element getter (const and non-const) returns, for every list of up to four elements and every valid index, positive or negative, the element Python's indexing yields (variants evaluated with C semantics; helpers they call are entered)", floor=1)
     g = fns.get("__redu_list_get", [])
-    bodies = {repr(v["body"]) for v in g}
-    r.check(len(g) >= 2 and len(bodies) == 1, "__redu_list_get/const-and-mutable-agree", (em.rel, line), f"{len(g)} getters with {len(bodies)} distinct bodies")
-    if g:
-        why = eval_list_get(g)
-        r.check(why is None, "__redu_list_get/negative-index-normalised", (em.rel, line), f"negative indices must count from the end in both getters: {why}")
+    r.check(len(g) >= 2, "__redu_list_get/const-and-mutable-present", (em.rel, line), f"{len(g)} getters")
+    gb = [(k, m) for k, m in bad_eval if k.startswith("get/")]
+    r.check(not gb, "__redu_list_get/negative-index-normalised", (em.rel, line), f"negative indices must count from the end in both getters: {gb[0][1] if gb else ''}")
 
     # ---- C09-BOUNDS --------------------------------------------------------------------------
-    r = cx.rule("C09-BOUNDS", "for every list size 0..4 (and every range(start, stop, step) on a grid) each helper's buffer indices stay inside the extent it allocated, nothing is used after delete[] and nothing is freed twice (abstract interpretation with exact unrolling and allocation tracking)", floor=60, exhaustive=True)
+    r = cx.rule("C09-BOUNDS", "for every list of up to four elements (and every range(start, stop, step) on a grid) each helper's buffer indices stay inside the extent it allocated, nothing is used after delete[] and nothing is freed twice, and the result is Python's (evaluation with C semantics and a tracked heap; helpers of unknown meaning are analysed by abstract interpretation with allocation tracking)", floor=1000, exhaustive=True)
 
     def run_helper(name, f, init_vars, label):
         h = Heap(label)
@@ -286,30 +489,22 @@ def run(cx):
         ex.run(f["body"], [st])
         return h
 
-    for n in ("__redu_list_append", "__redu_list_remove", "__redu_list_assign"):
-        f = fns[n][-1]
-        for size in range(0, 5):
-            lst = "dest" if n == "__redu_list_assign" else "list"
-            init = {f"{lst}.size": Iv(size, size), f"@alloc:{lst}.data": Iv(size, size), f"@freed:{lst}.data": False, f"@owner:{lst}.data": f"{lst}.data"}
-            sizes2 = range(0, 4) if n == "__redu_list_assign" else [None]
-            for s2 in sizes2:
-                if s2 is not None:
-                    init.update({"source.size": Iv(s2, s2), "@alloc:source.data": Iv(s2, s2), "@freed:source.data": False, "@owner:source.data": "source.data"})
-                label = f"{n}(size={size}{'' if s2 is None else f', source size={s2}'})"
-                h = run_helper(n, f, init, label)
-                for k, msg in h.viol:
-                    r.fail(f"{n}/{k}", (em.rel, line), f"{label}: {msg}")
-                if not h.viol:
-                    r.ok(label, n=max(1, h.oblig))
-    fr = fns["__redu_list_from_range"][-1]
-    for start, stop, step in itertools.product((0, 1, 7, -2), (0, 5, -3, 7, 2), (1, 2, 3, -1, -2, -3, 0)):
-        init = {"start": Iv(start, start), "stop": Iv(stop, stop), "step": Iv(step, step)}
-        label = f"__redu_list_from_range({start}, {stop}, {step})"
-        h = run_helper("__redu_list_from_range", fr, init, label)
-        for k, msg in h.viol:
-            r.fail(f"__redu_list_from_range/{k}", (em.rel, line), f"{label}: {msg}")
-        if not h.viol:
-            r.ok(label if step in (-3, 2) else None, n=max(1, h.oblig))
+    # the helpers with known semantics: evaluated (C semantics, tracked heap) on every list of up to four elements over two
+    # values - every equality pattern with the argument - and on a grid of ranges; an index outside its buffer, a touch of a
+    # freed buffer or a second delete[] stops the evaluation and is reported
+    r.ok("helpers evaluated with a tracked heap", n=n_eval - len(bad_eval))
+    seen_k = set()
+    for key, msg in bad_eval:
+        if key.startswith("get/") and not key.endswith("memory-safe"):
+            continue
+        hn = "__redu_list_" + key.split("/")[0] if not key.startswith("len") else "__redu_len"
+        k2 = f"{hn}/{key.split('/', 1)[1]}"
+        if k2 in seen_k:
+            r.stat.obligations += 1
+            r.stat.failed += 1
+            continue
+        seen_k.add(k2)
+        r.fail(k2, (em.rel, line), msg)
     for n, variants in fns.items():
         if n in ("__redu_list_append", "__redu_list_remove", "__redu_list_assign", "__redu_list_from_range", "__redu_list_get", "__redu_make_list", "__redu_len"):
             continue
@@ -328,26 +523,92 @@ def run(cx):
     r.check("result.size = sizeof...(Rest) + 1;" in snippet and "new T[result.size]{static_cast<T>(first), static_cast<T>(rest)...}" in snippet, "__redu_make_list/extent=argument-count", (em.rel, line), "make_list extent and initialiser list changed")
 
     # ---- C09-COPY-POLICY ---------------------------------------------------------------------
-    r = cx.rule("C09-COPY-POLICY", "a list-typed variable only ever receives a deep copy: re-assignment goes through __redu_list_assign (nothing else), and a first declaration from another list variable must not copy the struct", floor=3)
+    r = cx.rule("C09-COPY-POLICY", "a list-typed variable only ever receives a deep copy: scripts that re-assign a declared list (from a variable, a literal, a comprehension, itself; in setup, in the main loop, under an if, in a function) are partially evaluated and every write to the list must go through the deep-copying __redu_list_assign helper; a first declaration from another list variable must not copy the struct", floor=8)
     ha = pm.func("_handle_assignment_ast")
-    loc = Locals(ha)
-    nc = loc.defs.get("needs_clone", [])
-    r.check(len(nc) == 1 and norm(nc[0]) == "is_declared and _is_list_type(inferred_type)", "_handle_assignment_ast/reassigned-lists-are-cloned", (pm, ha), f"needs_clone := {norm(nc[0]) if nc else '?'}")
-    tmpl = [n for n in walk_local(ha) if isinstance(n, ast.JoinedStr) and "__redu_list_" in norm(n)]
-    for t in tmpl:
-        helper = re.search(r"__redu_list_\w+", norm(t)).group(0)
-        cs = lexical_conds(pm, t)
-        r.check(helper == "__redu_list_assign" and ("needs_clone", True) in cs, f"_handle_assignment_ast/list-assignment-via[{helper}]", (pm, t), f"list re-assignment is emitted through `{helper}` under {sorted(cs)}: only the deep-copying __redu_list_assign keeps two names from sharing a buffer", sample=f"re-assignment via {helper}")
-    r.check(len(tmpl) >= 1, "_handle_assignment_ast/list-assignment-template", (pm, ha), "list re-assignment template not found")
-    # the clone is taken on *every* path on which a declared list is re-assigned: the statement that installs the
-    # __redu_list_assign form is reached whenever needs_clone holds (no competing branch tested before it)
-    for t in tmpl:
-        st_ = next((a for a in pm.ancestors(t) if isinstance(a, ast.stmt)), None)
-        branch = next((a for a in pm.ancestors(t) if isinstance(a, ast.If) and st_ is not None and any(st_ is b or any(st_ is x for x in ast.walk(b)) for b in a.body)), None)
-        # `if needs_clone:` must be a top-of-chain test: not the elif of another condition
-        par = pm.parent.get(branch) if branch is not None else None
-        is_elif = isinstance(par, ast.If) and branch in par.orelse and len(par.orelse) == 1
-        r.check(branch is not None and norm(branch.test) == "needs_clone" and not is_elif, "_handle_assignment_ast/clone-on-every-reassignment-path", (pm, t), f"the deep copy is installed under `{norm(branch.test) if branch is not None else '?'}`{' as the elif of `' + norm(par.test) + '`' if is_elif else ''}: some re-assignment of a declared list bypasses __redu_list_assign")
+    pf = pm.func("parse")
+    REASSIGN = {
+        "setup-from-variable": ("a = [1, 2, 3]\nb = [4, 5, 6]\na = b\nwhile True:\n    a0 = 0\n", "a"),
+        "loop-from-variable": ("a = [1, 2, 3]\nb = [4, 5, 6]\nwhile True:\n    a = b\n", "a"),
+        "loop-from-literal": ("a = [1, 2, 3]\nwhile True:\n    a = [7, 8, 9]\n", "a"),
+        "loop-from-comprehension": ("a = [1, 2, 3]\nwhile True:\n    a = [x * 2 for x in range(3)]\n", "a"),
+        "loop-under-if": ("a = [1, 2, 3]\nb = [4, 5, 6]\nx = 1\nwhile True:\n    if x > 0:\n        a = b\n    else:\n        a = [0, 0, 0]\n", "a"),
+        "loop-self": ("a = [1, 2, 3]\nwhile True:\n    a = a\n", "a"),
+        "function-local": ("def f():\n    c = [1, 2]\n    d = [3, 4]\n    c = d\n    return len(c)\nwhile True:\n    n = f()\n", "c"),
+        "float-elements": ("a = [1.5, 2.5]\nb = [0.5, 0.25]\nwhile True:\n    a = b\n", "a"),
+        "after-append": ("a = [1, 2]\nb = [3, 4]\nwhile True:\n    b.append(5)\n    b.remove(5)\n    a = b\n", "a"),
+    }
+
+    def writes(prog, var):
+        """(kind, text) for every IR statement that writes list variable `var` after its declaration"""
+        out_ = []
+        seen_decl = [False]
+
+        def visit(nodes):
+            for n_ in nodes:
+                cn = type(n_).__name__
+                if cn in ("VarDecl", "VarAssign") and getattr(n_, "name", None) == var:
+                    e_ = str(n_.expr).strip()
+                    if cn == "VarDecl" and not seen_decl[0]:
+                        seen_decl[0] = True
+                        if re.fullmatch(r"[A-Za-z_]\w*", e_):
+                            out_.append(("struct-copy-declaration", f"{n_.c_type} {var} = {e_}"))
+                        continue
+                    out_.append(("struct-copy" if re.fullmatch(r"[A-Za-z_]\w*", e_) else "plain-assignment", f"{var} = {e_}"))
+                elif cn == "ExprStmt" and re.match(rf"\s*__redu_list_assign\(\s*{var}\s*,", str(n_.expr)):
+                    out_.append(("deep", str(n_.expr)))
+                for f_ in ("body", "else_body", "try_body", "branches", "handlers"):
+                    sub = getattr(n_, f_, None)
+                    if isinstance(sub, list):
+                        visit(sub)
+        visit(list(prog.global_decls))
+        visit(list(prog.setup_body))
+        visit(list(prog.loop_body))
+        for f_ in prog.functions:
+            visit(list(f_.body))
+        return out_
+
+    for label, (src, var) in REASSIGN.items():
+        try:
+            _it, out = pe.parse_source(src)
+        except dl.Unsupported as e:
+            raise AnalysisError(f"parse() left the evaluable subset on list script `{label}`: {e}")
+        if out.kind != "return":
+            r.fail(f"reassign[{label}]/accepted", (pm, pf), f"the script `{label}` is rejected with {out.value}")
+            continue
+        ws = writes(out.value, var)
+        bad = [t for k, t in ws if k != "deep"]
+        r.check(bool(ws) and not bad, f"reassign[{label}]/deep-copy", (pm, ha), f"script `{label}`: the declared list `{var}` is written by {[t for _k, t in ws] or 'nothing'}: only the deep-copying __redu_list_assign keeps two names from sharing a buffer (and releases the old one)", sample=f"{label}: {[t for _k, t in ws]}")
+    ALIAS = {
+        "global": ("a = [1, 2, 3]\nb = a\nwhile True:\n    a0 = 0\n", "b"),
+        "loop": ("a = [1, 2, 3]\nwhile True:\n    b = a\n", "b"),
+    }
+    aliased = []
+    for label, (src, var) in ALIAS.items():
+        _it, out = pe.parse_source(src)
+        if out.kind != "return":
+            continue
+        ws = writes(out.value, var)
+        if any(k in ("struct-copy", "struct-copy-declaration") for k, _t in ws):
+            aliased.append((label, [t for _k, t in ws]))
+    r.check(not aliased, "_handle_assignment_ast/list-alias-on-first-declaration", (pm, ha), f"`b = a` (first assignment of b from a list variable) is emitted as {aliased}: a shallow struct copy, both names own the same buffer (use after free after `a.append(..)`, double free never happens only because nothing is ever freed)")
+    # tuple assignment between declared lists: the hand-over through temporaries must not read a buffer an earlier store of
+    # the same statement has already released (ownership simulation over the loop IR, two passes)
+    SWAPS = {
+        "swap": ("front = [1, 2]\nback = [3, 4]\nwhile True:\n    front, back = back, front\n    n = front[0] + back[0]\n", ("front", "back")),
+        "rotate": ("a = [1]\nb = [2, 2]\nc = [3, 3, 3]\nwhile True:\n    a, b, c = b, c, a\n    n = a[0] + b[0] + c[0]\n", ("a", "b", "c")),
+        "swap-then-append": ("xs = [1, 2]\nys = [3]\nwhile True:\n    xs, ys = ys, xs\n    xs.append(4)\n    xs.remove(4)\n    n = xs[0] + ys[0]\n", ("xs", "ys")),
+        "list-and-scalar": ("xs = [1, 2]\nys = [3]\nk = 0\nwhile True:\n    xs, k = ys, k + 1\n    n = xs[0] + ys[0]\n", ("xs", "ys")),
+    }
+    for label, (src, lvars) in SWAPS.items():
+        _it, out = pe.parse_source(src)
+        if out.kind != "return":
+            r.fail(f"tuple[{label}]/accepted", (pm, pf), f"the script `{label}` is rejected with {out.value}")
+            continue
+        sim = OwnSim(lvars)
+        sim.run(list(out.value.setup_body))
+        for _pass in range(2):
+            sim.run(list(out.value.loop_body))
+        r.check(not sim.viol, f"tuple[{label}]/no-read-after-free", (pm, ha), f"script `{label}`: {'; '.join(sorted(set(sim.viol))[:3])}", sample=f"{label}: {len(out.value.loop_body)} loop statements, no freed buffer read")
     # who may free: buffers are released only inside the helper templates (and the record's destructor, if any); no
     # statement template of the parser or emitter spells delete[] itself
     n_free = 0
@@ -361,26 +622,26 @@ def run(cx):
                 r.fail(f"{m_.rel.split('/')[-1]}/delete[]-outside-the-list-helpers", (m_, n_), f"a statement template spells `delete[]` itself (`{n_.value.strip()[:60]}`): buffers are owned by the list record and released only by its helpers - a hand-written free runs before the right-hand side that may still read the buffer")
     if n_free < 1:
         raise AnalysisError("the list helper snippet no longer frees anything: ownership rules need re-confirmation")
-    # first declaration `b = a`
-    aliases_checked = any(isinstance(n, ast.If) and "isinstance(value, ast.Name)" in norm(n.test) and "_is_list_type" in norm(n.test) for n in walk_local(ha))
-    r.check(aliases_checked, "_handle_assignment_ast/list-alias-on-first-declaration", (pm, ha), "`b = a` (first assignment of b from a list variable) declares `__redu_list<T> b = a;`, a shallow struct copy: both names own the same buffer (use after free after `a.append(..)`, double free never happens only because nothing is ever freed)")
 
     # ---- C09-LEN-MODEL -----------------------------------------------------------------------
-    r = cx.rule("C09-LEN-MODEL", "the parser's static model of a list's length follows every append/remove (or gives up): a folded len() must never exceed the run-time length", floor=3)
-    psl = pm.func("_parse_simple_lines")
-    blk = [n for n in walk_local(psl) if isinstance(n, ast.If) and norm(n.test) == "isinstance(current, list)"]
-    if len(blk) != 1:
-        raise AnalysisError("tracked-list bookkeeping block not found")
-    b = blk[0]
-    pops = [c for c in walk_local(b) if isinstance(c, ast.Call) and norm(c.func) in ("current.pop", "current.remove")]
-    unknown_handled = any(norm(c.func) == "current.pop" and any(t == "arg_value is None and current" and tv for t, tv in lexical_conds(pm, c)) for c in pops)
-    r.check(unknown_handled, "tracked-list/remove-of-unknown-value-shrinks-model", (pm, b), "when the removed value is only known at run time the compile-time list model is not shrunk: a later len(xs) is folded too large and xs[len(xs) - 1] reads past the buffer")
-    inval = [n for n in walk_local(b) if isinstance(n, ast.Assign) and norm(n.targets[0]) == "vars[owner_name]" and "_ExprStr" in norm(n.value)]
-    r.check(len(inval) == 1, "tracked-list/non-list-model-invalidated", (pm, b), "when the model is not a concrete list the name must be marked unknown")
-    li = [n for n in walk_local(psl) if isinstance(n, ast.Assign) and norm(n.targets[0]) == "info['length']"]
-    vals = sorted(norm(n.value) for n in li)
-    r.check(vals == ["length + 1", "length - 1"], "tracked-list/length-counter-follows-append-remove", (pm, psl), f"length counter updates: {vals}")
-    sz = [n for n in walk_local(ha) if isinstance(n, ast.If) and "expected != new_length" in norm(n.test) and any(isinstance(x, ast.Raise) for x in n.body)]
+    r = cx.rule("C09-LEN-MODEL", "the parser's static model of a list's length follows every append/remove (or gives up): straight-line prologues that append/remove constants and run-time values are partially evaluated, static initialisers and setup() interpreted with a scripted sensor, and every len()/index result must be the one Python computes - a folded len() never exceeds the run-time length", floor=6)
     from . import c03
+    pf = pm.func("parse")
+    LEN = {
+        "append-constants": ("xs = [5]\nxs.append(6)\nxs.append(7)\nn = len(xs)\nlast = xs[n - 1]\n", False),
+        "remove-first-only": ("xs = [1, 0, 1, 0]\nxs.remove(0)\nn = len(xs)\nlast = xs[n - 1]\n", False),
+        "append-then-remove": ("xs = [5, 6]\nxs.append(5)\nxs.remove(5)\nn = len(xs)\nfirst = xs[0]\n", False),
+        "remove-run-time-value": ("xs = [13, 23, 33]\nv = pot.read()\nxs.remove(v)\nn = len(xs)\nlast = xs[n - 1]\n", True),
+        "append-run-time-value": ("xs = [1]\nxs.append(pot.read())\nn = len(xs)\nlast = xs[n - 1]\n", True),
+        "run-time-elements": ("v = pot.read()\nxs = [v, v + 1]\nxs.append(5)\nn = len(xs)\nxs.remove(5)\nm = len(xs)\nlast = xs[m - 1]\n", True),
+        "remove-twice": ("xs = [4, 4, 4]\nxs.remove(4)\nxs.remove(4)\nn = len(xs)\n", False),
+        "two-lists": ("xs = [1, 2]\nys = [3]\nxs.append(9)\nys.append(8)\nys.append(7)\nn = len(xs) * 10 + len(ys)\n", False),
+    }
+    for label, (body, pot) in LEN.items():
+        st, want, got, why, prog = c03.eval_prologue(label, body, pot=pot)
+        if st != "ok":
+            r.fail(f"len[{label}]/accepted", (pm, pf), f"the prologue `{label}` is rejected with {why}")
+            continue
+        r.check(got == want, f"len[{label}]/values=python", (pm, pf), f"prologue `{label}`: Python leaves {want}; static initialisers followed by setup() leave {got}{why}: the static length model no longer follows the list", sample=f"{label}: {want}")
     c03.evaluator_no_alias(r, pm)
     r.check(c03.list_size_guard_ok(pm), "_handle_assignment_ast/size-mismatch-rejected", (pm, ha), "re-assigning a list with a different static length must be rejected (the tracked length feeds folded len())")
